@@ -15,7 +15,7 @@ from collections import Counter
 
 from hsverif.core import Family, Result
 from hsverif.proggen import gen_program, shrink_program
-from hsverif.progmodel import RealRun, run_reference
+from hsverif.progmodel import RealRun, program_is_valid, run_reference
 
 PID = "C01"
 LEVEL = "exploration"
@@ -112,6 +112,9 @@ def run(case: dict) -> Result:
 
     quiet_library_logging()
     res = Result()
+    if not program_is_valid(case):
+        res.inconclusive = "invalid program (two processes on one future)"
+        return res
     ref = run_reference(case)
     rr = RealRun(case)
     sim = rr.make()
